@@ -12,7 +12,24 @@
 #include <string.h>
 #include "ovni.h"
 
+#include <signal.h>
+#include <unistd.h>
+
 static pthread_barrier_t bar;
+static _Thread_local long my_id = -1;
+
+/* says which thread the library stopped (observation at the driver's
+ * boundary: the wording of the library's message is not looked at) */
+static void
+on_abort(int sig)
+{
+	(void) sig;
+	char buf[64];
+	int n = snprintf(buf, sizeof(buf), "ABORT-IN thread=%ld\n", my_id);
+	if (write(1, buf, (size_t) n) < 0)
+		_exit(97);
+}
+
 static int iters, nvers;
 static char **vers;
 static const char *refuse;
@@ -21,6 +38,7 @@ static void *
 worker(void *arg)
 {
 	long id = (long) arg;
+	my_id = id;
 	pthread_barrier_wait(&bar);
 	for (int i = 0; i < iters; i++) {
 		if (id == 0 && refuse != NULL) {
@@ -46,6 +64,11 @@ main(int argc, char *argv[])
 		pthread_t th[64];
 		if (n < 1 || n > 64)
 			return 98;
+		struct sigaction sa;
+		memset(&sa, 0, sizeof(sa));
+		sa.sa_handler = on_abort;
+		sa.sa_flags = (int) SA_RESETHAND;
+		sigaction(SIGABRT, &sa, NULL);
 		pthread_barrier_init(&bar, NULL, (unsigned) n);
 		for (long i = 0; i < n; i++)
 			if (pthread_create(&th[i], NULL, worker, (void *) i) != 0)
